@@ -564,6 +564,9 @@ def rule_schedule_direction(ctx, rule='R06.12'):
 
 
 def run(ctx):
+    from . import edges
+    edges.rule_snapshot_index(ctx, 'R06.13')         # snapshot k is snapshot k for every index
+    edges.rule_time_direction(ctx, 'R08.12')         # time may be negative and may run backwards: the schedule
     from . import pyrules
     pyrules.rule_keyword_constructor(ctx, 'R05.13')  # Simulation(filename=..., snapshot=k) loads snapshot k
     rule_schedule_direction(ctx)
